@@ -191,10 +191,12 @@ type shared struct {
 	trees    map[string]*yqlib.ExpressionNode
 	decoders map[string]yqlib.Decoder
 	encoders map[string]yqlib.Encoder
+	// string evaluators are objects meant to be kept and called again
+	stringEvals map[int]yqlib.StringEvaluator
 }
 
 func newShared() *shared {
-	return &shared{trees: map[string]*yqlib.ExpressionNode{}, decoders: map[string]yqlib.Decoder{}, encoders: map[string]yqlib.Encoder{}}
+	return &shared{trees: map[string]*yqlib.ExpressionNode{}, decoders: map[string]yqlib.Decoder{}, encoders: map[string]yqlib.Encoder{}, stringEvals: map[int]yqlib.StringEvaluator{}}
 }
 
 // taskReader delivers the job's input in the job's chunk schedule and yields
@@ -268,6 +270,15 @@ func runJob(job *sim.LibJob, sh *shared) (out string, errText string) {
 		dec = decoderFor(job.InFmt)
 		enc = encoderFor(job.OutFmt)
 	}
+	stringEvaluator := func() yqlib.StringEvaluator {
+		if sh == nil {
+			return yqlib.NewStringEvaluator()
+		}
+		if sh.stringEvals[job.EncSlot] == nil {
+			sh.stringEvals[job.EncSlot] = yqlib.NewStringEvaluator()
+		}
+		return sh.stringEvals[job.EncSlot]
+	}
 	parse := func() (*yqlib.ExpressionNode, error) {
 		if sh != nil {
 			if t, ok := sh.trees[job.Expr]; ok {
@@ -330,13 +341,13 @@ func runJob(job *sim.LibJob, sh *shared) (out string, errText string) {
 		}
 		return writer.buf.String(), ""
 	case "string":
-		s, err := yqlib.NewStringEvaluator().Evaluate(job.Expr, string(job.Input), enc, dec)
+		s, err := stringEvaluator().Evaluate(job.Expr, string(job.Input), enc, dec)
 		if err != nil {
 			return s, err.Error()
 		}
 		return s, ""
 	case "stringall":
-		s, err := yqlib.NewStringEvaluator().EvaluateAll(job.Expr, string(job.Input), enc, dec)
+		s, err := stringEvaluator().EvaluateAll(job.Expr, string(job.Input), enc, dec)
 		if err != nil {
 			return s, err.Error()
 		}
